@@ -1,6 +1,6 @@
 """C01 - matured unbond claims funded and paid exactly once: structural clauses (DESIGN 6, C01)."""
 from ..callgraph import explore, storage_effects, message_effects, site_guarded, call_sites, written_value_in
-from ..expr import show, find
+from ..expr import show, find, arith_args
 from .common import entry, variant_env, stored, where, arm_handler
 from .hub_common import (release_loops, release_guard_preds, history_readers, history_writers, subtree, early_exits,
                          PARAMS, STATE, NEWWAIT, HISTORY)
@@ -68,9 +68,10 @@ def run(prog, world, sem, rep):
             continue
         wv = written_value_in(sem, vs, v, kind, STATE, val)
         pb = world.ident(sem.field_of(wv, "prev_hub_balance"), expand_ws=False) if wv is not None else None
-        if pb is not None and pb.op == "call" and pb.info.endswith("checked_sub"):
-            okp = sem.label(pb.args[0]) == BAL and world.ident(pb.args[1], expand_ws=False) == paid
-            det = "prev_hub_balance := checked_sub(%s, %s)" % (sem.label(pb.args[0]), show(pb.args[1], 3))
+        pa = arith_args(pb, "Sub")
+        if pa is not None:
+            okp = sem.label(pa[0]) == BAL and world.ident(pa[1], expand_ws=False) == paid
+            det = "prev_hub_balance := %s - %s" % (sem.label(pa[0]), show(pa[1], 3))
         else:
             det = "prev_hub_balance := %s" % (show(pb, 4) if pb is not None else None)
         others = [f for f in ("total_bond_bsei_amount", "total_bond_stsei_amount", "bsei_exchange_rate", "stsei_exchange_rate", "last_processed_batch", "last_unbonded_time")
@@ -159,14 +160,26 @@ def run(prog, world, sem, rep):
     # C01.b queue-for-removal paired with the accumulation
     pb = push.site[1]
     ab = add.site[1]
-    after_add = be.cfg.reach(be.cfg.succ[ab], stop={pb})
-    after_push = be.cfg.reach(be.cfg.succ[pb], stop={ab})
-    loop_heads = {b for b in be.cfg.live if be.cfg.in_loop(b)}
-    paired = (pb not in reach) and not (ab in after_push and False)
-    # a path from the accumulation around the push back into the loop or to the exit would pay without deleting
-    escapes = [b for b in after_add if b != pb and (b in be.cfg.exits() or b == ab)]
+    # per loop iteration the share is added iff the id is queued, in either order: whichever of the two comes first (dominates the other)
+    # is always followed by the second before the iteration ends, and the second is never reached again without the first
+    cfg = be.cfg
+    if pb == ab or cfg.dominates(ab, pb):
+        first, second = ab, pb
+    elif cfg.dominates(pb, ab):
+        first, second = pb, ab
+    else:
+        first, second = None, None
+    escapes = []
+    if first is not None and first != second:
+        after_first = cfg.reach(cfg.succ[first], stop={second})
+        escapes = [b for b in after_first if b != second and (b in cfg.exits() or b == first)]
+        after_second = cfg.reach(cfg.succ[second], stop={first})
+        if second in after_second:
+            escapes.append(second)
+    paired = first is not None and (pb not in reach) and (ab not in reach)
     rep.ob("C01.b", "batch id queued for removal exactly where its share is added", paired and not escapes and world.ident(push.args[-1], expand_ws=False) == key,
-           "after adding a share the function can continue without queuing the batch for removal" if escapes else "push behind the same released test, same key", where(pv.body, pb))
+           "within one pass over a claim, adding its share and queuing its batch id for removal do not always go together (blocks %s)" % sorted(set(escapes)) if escapes or not paired
+           else "share and removal id go together behind the same released test, same key", where(pv.body, pb))
 
     # handler level: remover call
     removers = set()
